@@ -184,6 +184,10 @@ open CoreDhcp
 #print axioms SYS_frame4
 #print axioms SYS_file_address4_cfg
 #print axioms SYS_C17_delivered4
+#print axioms SYS_frame6
+#print axioms SYS_pd_delivered6
+#print axioms SYS_pd_roundtrip
+#print axioms SYS_pd_answers_each
 #print axioms GEN_a4_toIP_eq
 #print axioms GEN_a4_toIP_ofNat
 #print axioms GEN_a4_toIP_panic_iff
